@@ -16,12 +16,12 @@ func init() {
 			{Name: "TestPatternConcurrent", Rapid: true, Quick: 1500, Thorough: 10000, QuickShards: 2, ThoroughShards: 16, Race: true},
 		},
 		Fuzz: []FuzzSpec{
-			{Name: "FuzzDateTime", Seconds: 40},
-			{Name: "FuzzIPRelation", Seconds: 40},
-			{Name: "FuzzPattern", Seconds: 40},
-			{Name: "FuzzJSONAndRegexp", Seconds: 40},
-			{Name: "FuzzHostname", Seconds: 40},
-			{Name: "FuzzUUID", Seconds: 40},
+			{Name: "FuzzDateTime", Seconds: 60},
+			{Name: "FuzzIPRelation", Seconds: 60},
+			{Name: "FuzzPattern", Seconds: 60},
+			{Name: "FuzzJSONAndRegexp", Seconds: 60},
+			{Name: "FuzzHostname", Seconds: 60},
+			{Name: "FuzzUUID", Seconds: 60},
 		},
 		Rule:      "cases = (format, string) pairs: a well-formed instance built from the format's grammar, or a single-point corruption of one (field out of range, separator removed, illegal byte inserted, truncated, ...); (pattern, value) pairs with the pattern drawn from an RE2-subset grammar and the value a member / non-member by construction or arbitrary; steps of sequential histories over >= 12 textually close patterns; concurrent histories of 1-16 goroutines on never-used patterns. Non-trivial = a corrupted instance, or an IPv4-mapped IPv6 address, or a pattern (re-)used after >= 10 other distinct patterns, or a concurrent history. Distinct = SHA-256 of (format|kind|value) resp. (pattern without uniqueness token|value).",
 		LevelText: "Generated-input search. Per format, instances are built constructively from the grammar the format's doc comment names (RFC 3339, 4122, 5322, 1035, 2373, 3986, 4632/4291, 8259, 1123/822, IEEE 802, RE2) and must be accepted; single-point corruptions that are malformed under every reading must be rejected with a ServiceError named invalid_format; the three IP formats are related on the same strings (ip <=> ipv4 xor ipv6), exhaustively for all 87381 strings over {1 . : f} up to length 8 and for boundary tables (calendar, clock fields, octets, prefix lengths, UUID variant). ValidatePattern is compared with regexp.MustCompile(p).MatchString(v) on grammar-generated patterns, inside sequential histories of interleaved look-alike patterns and inside concurrent histories (goroutines released together on patterns the process-wide cache has never seen) run from the -race build. Exploration, not proof: the enumerated tables are complete, everything else is sampled; the Go scheduler is not controlled.",
